@@ -183,7 +183,40 @@ fn lib_mask<S: MlDsa>(rho: &[u8; 64], mu: u16) -> Vec<Poly> {
     match S::SET { 44 => vh::expand_mask::<4>(S::GAMMA1, rho, mu).to_vec(), 65 => vh::expand_mask::<5>(S::GAMMA1, rho, mu).to_vec(), _ => vh::expand_mask::<7>(S::GAMMA1, rho, mu).to_vec() }
 }
 
+/// C14: RNG seeds (first 32 bytes = xi) whose key, under the CONSTANT-TIME TEST MODE samplers, has a coefficient
+/// of t = A s1 + s2 outside [0, q) before the final reduction: the rare keys on which code that treats
+/// "already in range" specially takes another path.  Prints hex seeds, rarest first.
+pub fn ct_edge_seeds<S: MlDsa>(seed: u64, n: usize, want: usize) {
+    use crate::fcases::shake256;
+    let base = Prng::new(seed, 0x1400 + 0xc0 + S::SET as u64).next();
+    let nt = std::thread::available_parallelism().map(|x| x.get()).unwrap_or(8).min(16);
+    let found: std::sync::Mutex<Vec<(u32, [u8; 32])>> = std::sync::Mutex::new(vec![]);
+    std::thread::scope(|sc| { for t in 0..nt { let found = &found; sc.spawn(move || {
+        let mut i = t;
+        while i < n {
+            let mut xi = [0u8; 32];
+            xi[..8].copy_from_slice(&(base.wrapping_add(i as u64)).to_le_bytes());
+            let hh = shake256(&[&xi, &[S::K as u8], &[S::L as u8]], 128);
+            let (rho, rhop) = (&hh[..32], &hh[32..96]);
+            let s1: Vec<Poly> = (0..S::L).map(|r| { let mut sd = rhop.to_vec(); sd.extend_from_slice(&(r as u16).to_le_bytes()); refmath::rej_bounded_poly_ct(S::ETA, &sd) }).collect();
+            let s2: Vec<Poly> = (0..S::K).map(|r| { let mut sd = rhop.to_vec(); sd.extend_from_slice(&((r + S::L) as u16).to_le_bytes()); refmath::rej_bounded_poly_ct(S::ETA, &sd) }).collect();
+            let a: Vec<Vec<Poly>> = (0..S::K).map(|r| (0..S::L).map(|c| { let mut sd = rho.to_vec(); sd.push(c as u8); sd.push(r as u8); refmath::rej_ntt_poly_ct(&sd) }).collect()).collect();
+            let w = refmath::mat_vec(&a, &s1);
+            let mut score = 0u32;
+            for r in 0..S::K { for k in 0..256 { let tp = w[r][k] + s2[r][k] as i64; if tp == refmath::Q { score += 1000; } else if tp > refmath::Q { score += 100; } else if tp < 0 { score += 10; } } }
+            if score > 0 { found.lock().unwrap().push((score, xi)); }
+            i += nt;
+        } }); } });
+    let mut e = found.into_inner().unwrap();
+    e.sort_by(|a, b| b.0.cmp(&a.0).then(a.1.cmp(&b.1)));
+    for (score, xi) in e.iter().take(want) { println!("CTEDGE {} {} {}", S::SET, score, hexs(xi)); }
+}
+
 pub fn run(a: &Args) {
+    if a.u("ctedge", 0) > 0 {
+        for set in a.sets() { let (n, w) = (a.u("ctedge", 0) as usize, a.u("want", 2) as usize); for_set!(set, ct_edge_seeds(a.u("seed", 1), n, w)); }
+        return;
+    }
     let seed = a.u("seed", 1);
     for set in a.sets() {
         let mut out = Out::create(&format!("{}/sweeps_{}.ndjson", a.s("out", "/verif/work/sweeps"), set));
